@@ -495,6 +495,28 @@ S.update(R16)
 ORIGIN5 |= set(R16)
 ROUND16 = set(R16)
 
+# ---- round 17 (2026-10-04, one agent per property given only that property's text; least-covered properties; all 16 caught on the first run)
+R17 = {
+ "C02-15": ("_read_asn1_header computes a long-form length from the length octets that have arrived so far", "zero-padded long-form length (30 84 00 00 00 LL) cut inside the length octets"),
+ "C02-16": ("receive() skips re-parsing until a remembered size is buffered; the size is set only when data is first buffered", "large message split; the completing chunk also carries the start of a smaller message"),
+ "C06-17": ("_incoming_needed early return only reset when the buffer drains fully", "3 chunks: chunk 2 completes unit A and ends inside a shorter unit B; chunk 3 completes B"),
+ "C06-18": ("unpack_ldap_message split in two: the per-operation unpack runs outside the NotEnougData -> ValueError guard", "complete outer unit whose inner element over-claims its length"),
+ "C07-21": ("peek_header caches the header; read_enumerated does not clear the cache", "peek, read_enumerated, peek, read"),
+ "C07-22": ("negative two's complement by one invert-and-carry pass whose carry rule looks at the original octet", "negative INTEGER of >= 3 octets with a 0x00 octet before the trailing zero run (FF 00 01)"),
+ "C09-19": ("client registers the id as outstanding before the base _send", "a refused send, then a response with the never-issued id"),
+ "C09-20": ("write_integer fast path 02 01 vv for 0 <= v <= 0xFF", "the 128th..255th request of one session"),
+ "C10-14": ("server retires a request only on SearchResultDone or when the id is not a search", "search answered by an extended/bind response, then a second response"),
+ "C10-15": ("server validation exempts by message_id != 0 instead of by UnbindRequest type", "server response with id 0"),
+ "C12-17": ("_send encodes straight into the outgoing buffer; child writers flush on exception", "a send that passes the gates and fails while packing (lone surrogate in a late attribute)"),
+ "C12-18": ("data_to_send keeps a read offset, compares the amount with the buffer length, does not clamp", "partial drain, drain of slightly more than pending, send, drain"),
+ "C13-16": ("escapes decoded once up front for every filter type; substrings then split on '*'", "substring component containing a literal '*' octet"),
+ "C13-17": ("serializer fast path: latin-1 isalnum values emitted raw", "value made only of Latin-1 letters/digits with an octet >= 0x80"),
+ "C18-18": ("schema QUTF8 widened to [^']: escapes match two ways, 2^n on overall failure", "unterminated qdstring with ~20 escapes"),
+ "C18-19": ("_unpack_complex_filter retries the nested parse with one more character on FilterSyntaxError", "invalid innermost item under >= ~14 levels of & | !"),
+}
+S.update(R17)
+ROUND17 = set(R17)
+
 MISSED_FIRST = {"C13-15", "C01-31", "C10-13", "C17-24", "C19-26", "C07-20", "C08-22", "C08-23", "C11-37", "C11-38", "C18-17", "C01-30", "C11-32", "C11-33", "C14-20", "C15-15", "C19-24", "C19-25", "C11-35", "C18-16", "C01-26", "C04-19", "C05-18", "C08-19", "C09-16", "C11-27", "C01-28", "C02-14", "C09-18", "C19-21", "C19-22", "C01-22", "C03-19", "C03-20", "C05-17", "C07-18", "C09-14", "C11-26", "C15-14", "C16-18", "C19-20", "C05-13", "C05-14", "C05-15", "C09-13", "C11-22", "C13-14", "C19-16", "C19-17", "C19-18", "C11-16", "C11-20", "C11-21", "C15-13", "C11-14", "C11-15", "C17-13", "C19-14", "C06-13", "C07-13", "C14-15", "C14-16", "C17-15", "C17-16", "C19-15", "C02-11", "C02-12", "C06-12", "C13-12", "C14-11", "C15-12", "C16-13", "C01-11", "C01-12", "C04-11", "C05-11", "C07-11", "C08-12", "C09-11", "C11-11", "C13-11", "C17-11", "C19-11", "C19-12", "C19-13", "C01-9", "C02-10", "C07-10", "C10-10", "C13-10", "C15-10", "C04-8", "C08-8", "C11-8", "C15-7", "C18-7", "C18-8", "C06-3", "C07-1", "C11-3", "C13-2", "C19-1", "C19-2", "C01-6", "C04-6", "C05-6", "C12-5", "C15-6"}
 NOT_CAUGHT = {"C10-7", "C11-12"}
 PREEMPTIVE = {"C05-9", "C07-9", "C08-9", "C08-10", "C10-9", "C11-10", "C14-10", "C15-9", "C17-10", "C18-9", "C18-10", "C19-9", "C01-8", "C02-7", "C05-8", "C07-8", "C09-7", "C13-8", "C16-7", "C16-8", "C19-7", "C19-8", "C02-5", "C02-6", "C06-6", "C07-4", "C07-6", "C12-4", "C13-5", "C13-6", "C16-5", "C19-4", "C19-5", "C19-6"}
@@ -510,7 +532,7 @@ for mid, (summary, needs) in S.items():
                                       "missed (workload strengthened afterwards, DESIGN 11.4)" if mid in MISSED_FIRST else
                                       "not run before strengthening: judged a miss from the change description (no such inputs in the workload), workload strengthened first (DESIGN 11.4)" if mid in PREEMPTIVE else "caught")
     k_ = int(mid.split("-")[1])
-    m["round"] = 16 if mid in ROUND16 else 15 if mid in ROUND15 else 14 if mid in ROUND14 else 13 if mid in ROUND13 else 12 if mid in ROUND12 else 11 if mid in ROUND11 else 10 if mid in ROUND10 else 9 if mid in ROUND9 else 8 if mid in ROUND8 else 7 if mid in ROUND7 else 6 if mid in ROUND6 else 5 if k_ >= 11 else 4 if k_ >= 9 else 3 if k_ >= 7 else 2 if k_ >= 4 else 1
+    m["round"] = 17 if mid in ROUND17 else 16 if mid in ROUND16 else 15 if mid in ROUND15 else 14 if mid in ROUND14 else 13 if mid in ROUND13 else 12 if mid in ROUND12 else 11 if mid in ROUND11 else 10 if mid in ROUND10 else 9 if mid in ROUND9 else 8 if mid in ROUND8 else 7 if mid in ROUND7 else 6 if mid in ROUND6 else 5 if k_ >= 11 else 4 if k_ >= 9 else 3 if k_ >= 7 else 2 if k_ >= 4 else 1
     if mid in ORIGIN5:
         m["origin"] = "independent sub-agent given the 19 property statements, a scratch worktree and one-line summaries of the earlier seeded changes (nothing else from /verif)"
     json.dump(m, open(p, "w"), indent=1)
